@@ -443,10 +443,49 @@ func init() {
 	mon.Register(p)
 }
 
+var (
+	c14Judged      uint64
+	c14ReadBuffers = map[int][]byte{}
+)
+
 func c14Judge(c *mon.Ctx, in *c14Script) {
 	c.Eval(1)
 	s := []byte(in.Script)
 	scr := bscript.NewFromBytes(mon.Exact(s)) // capacity == length: an access behind the end cannot go unnoticed
+	if c14Judged++; c14Judged%2 == 0 && len(s) > 0 && len(s) <= 700 {
+		// every other script is inspected in a read buffer the caller re-uses: same address, same
+		// length as the script inspected there before, other content
+		buf, ok := c14ReadBuffers[len(s)]
+		if !ok {
+			buf = make([]byte, len(s))
+			c14ReadBuffers[len(s)] = buf
+		}
+		copy(buf, s)
+		view := bscript.Script(buf)
+		scr = &view
+		c.Count("inspected-in-a-reused-read-buffer")
+		// ... and when this script has been inspected, the next message arrives in the same buffer:
+		// same length, other structure. What is said about it must not depend on what was there before.
+		defer func() {
+			for _, fill := range []byte{0x4b, 0x51, 0x00} {
+				next := bytes.Repeat([]byte{fill}, len(s))
+				if len(next) > 2 {
+					next[len(next)-1] = 0xac
+				}
+				fresh := bscript.NewFromBytes(mon.Exact(next))
+				copy(buf, next)
+				var a, b string
+				var a1, a2, a3, b1, b2, b3 bool
+				if c.Try("bscript.(*Script).ScriptType", func() {
+					a, a1, a2, a3 = view.ScriptType(), view.IsP2PK(), view.IsMultiSigOut(), view.IsP2PKHInscription()
+					b, b1, b2, b3 = fresh.ScriptType(), fresh.IsP2PK(), fresh.IsMultiSigOut(), fresh.IsP2PKHInscription()
+				}) && (a != b || a1 != b1 || a2 != b2 || a3 != b3) {
+					c.Violationf("C14:answer-depends-on-what-the-buffer-held-before", "script %x… inspected in a buffer that held %x… before: type %q p2pk=%v multisig=%v inscription=%v; the same bytes in a new slice: %q %v %v %v", next[:min(len(next), 8)], s[:min(len(s), 8)], a, a1, a2, a3, b, b1, b2, b3)
+				}
+				copy(buf, s)
+			}
+		}()
+	}
 	defer func() {                            // every query is a read: the script is afterwards what it was
 		if !bytes.Equal(*scr, s) {
 			c.Violationf("C14:inspection-changed-the-script", "after the inspection queries the script is %x, it was %x", []byte(*scr), s)
